@@ -158,6 +158,8 @@ def main(argv=None):
                 continue
             if o["status"] == "dup":
                 continue
+            if o["status"] is None:
+                o["status"] = "undecided"        # prove() was interrupted before a verdict
             obl[(o["name"], o["status"])] += 1
             if o["status"] == "violated":
                 info = o.get("info") if isinstance(o.get("info"), dict) else {}
@@ -279,7 +281,7 @@ def main(argv=None):
             "configurations": len(cfgs),
             "obligations": n_obl,
             "discharged": n_ok,
-            "obligations_by_name": {"%s [%s]" % k: v for k, v in sorted(obl.items())},
+            "obligations_by_name": {"%s [%s]" % k: v for k, v in sorted(obl.items(), key=lambda kv: (kv[0][0], str(kv[0][1])))},
             "reachability_witnesses": dict(reach),
             "solver_seconds": round(stats.solver_s, 2),
             "solver_results": {"sat": stats.sat, "unsat": stats.unsat, "unknown": stats.unknown},
